@@ -70,6 +70,11 @@ CHECKS = {
          "After each of up to 30 generated operations the wallet's balance must equal the sum of its unspent slips, unspent must be a subset of slips, and - while no reorganisation has happened - the unspent set must equal the reference ledger's spendable in-window outputs of the wallet key minus inputs committed to pending built transactions; every transaction built by Transaction::create must have no repeated input, outputs <= inputs and be valid per the reference ledger on the ledger it was built on (also after reorganisations).",
          "Staking slips and NFT groups are not generated. Exact set equality is only asserted on reorg-free histories, as the statement says.",
          "DESIGN.md §3 C19"),
+ "C18": ("exploration",
+         "exhaustive enumeration of all 2^n touch patterns (n <= 8 quick, <= 11 thorough) plus property-based random blocks/key lists; projection and commitment-recomputation oracles, in memory and across the wire format",
+         "For every pattern of which transactions of a block touch the client's key list, the lite block must keep id/hash/signature/header, contain every touching transaction unchanged and in order, account for every omitted one, allow the header's merkle root to be recomputed from its transactions, and keep all of that after serialisation. Placeholder merging depends on the position pattern, which is enumerated completely for small n.",
+         "Open known finding F27: whenever two adjacent omitted transactions are merged the commitment is not recomputable (keyed by merged/unmerged so that a regression of the unmerged case is still reported). The HTTP route in saito-rust that serves lite blocks is not driven; the same Block::generate_lite_block + serialize_for_net calls are.",
+         "DESIGN.md §3 C18"),
 }
 NOT_YET = {}
 
